@@ -13,7 +13,7 @@ FUNCTIONS_ENCODED = ["Node._handle_connections (accept, recv, zero read, socket 
                      "PeerConnection.work_read_queue/work_write_queue/close"]
 ASSUMPTIONS = ["'a live connection of that peer' is read narrowly: capabilities exchange succeeded for that identity, or dialled to it",
                "quiescent point = the virtual world has settled (next select would time out)", "each connection carries at most one CER"]
-BOUNDS = {"quick": "every history of depth 3 over 16 events from 3 initial states (fresh, peer ready inbound, peer ready outbound) and every history of depth 4 from 'peer ready inbound'; 1 peer, 1 application; invariant after every step; plus readiness / takeover / foreign-CEA scenarios",
+BOUNDS = {"quick": "every history of depth 3 over 16 events from 3 initial states (fresh, peer ready inbound, peer ready outbound) and every history of depth 4 from 'peer ready inbound' for 4 seeded first events; 1 peer, 1 application; invariant after every step; plus readiness / takeover / foreign-CEA scenarios",
           "thorough": "every depth-4 history from the 3 initial states; depth 5 from 'peer ready inbound' for 48 seeded two-event prefixes"}
 OUTSIDE = ["depth 5 exhaustive, depth > 5", "3 peers", "2 applications"]
 
@@ -252,7 +252,8 @@ def specs(tier, seed, carve):
                         bound="every 3-event history over %d events from initial state '%s'" % (ne, init)))
         if q and init != "ready_inbound":
             continue
-        for f in range(ne):
+        # quick: a seeded quarter of the first events (the wire-level histories of harness/uni.py add breadth instead)
+        for f in (sorted(rnd.sample(range(ne), 4)) if q else range(ne)):
             out.append(dict(id="history/%s/d4/%s" % (init, H.EVENTS[f]), fn="history", params={"init": init, "depth": 4, "prefix": [f]}, timeout=1500,
                             bound="every 4-event history starting with %s from initial state '%s'" % (H.EVENTS[f], init)))
     if not q:
